@@ -1,23 +1,44 @@
 """C02 — Every estimator puts spectral values on the frequency axis it reports."""
 import json
+import os
 import numpy as np
 import vlib
 from props import _estimators as E
+from props import _pipelines as P
 
-LEVEL_TEXT = ("Coq theorems: the reported axes have NFFT/2+1 | (NFFT+1)/2 | NFFT entries and entry k is bin k (model of Range, tied to the "
-              "code by the exact bin correspondence); in the abstract ordered *-field the windowed periodogram of a pure on-grid exponential "
-              "(any amplitude, any bin of either sign, any window with non-negative samples, any N <= NFFT) attains its maximum at the entry of "
-              "that bin (triangle inequality proved without square roots).  The per-class clauses (real, finite, length = len(frequencies()), "
-              "tone located on the reported axis: exactly / within one bin / within the taper bandwidth; real sinusoid within the main lobe) "
-              "are decided by a property-directed search over all 12 classes.")
+LEVEL_TEXT = ("Coq theorems (Properties/C02.v, 33 statements, axiom-free): the reported axes have NFFT/2+1 | (NFFT+1)/2 | NFFT entries and entry k is bin k; "
+              "what each functional estimator returns (lengths) and, for every store of the pipeline vocabulary, entry j of the stored PSD = one "
+              "coefficient * positive weight * functional result at the entry of the SAME frequency -- composed with arma2psd (C08), minvar (C16), "
+              "multitaper (C19), eigen (C17) into class-level axis statements; over the pipeline table GENERATED from the snapshot on every run "
+              "(8 theorems, recompiled): every class of the statement, every NFFT, real/complex: length psd = length frequencies() = the stated count, "
+              "entry j = coef * c * S(bin j) with frequencies()[j] = j*sampling/NFFT.  Tone location proved for noiseless data: periodogram (model of "
+              "speriodogram and of the class: any window with non-negative samples, any N <= NFFT, both signs, real- and complex-data storage), real "
+              "sinusoid with the rectangular window on the whole grid (bins k and NFFT-k are the two maxima, all others 0), correlogram "
+              "(rectangular/biased/lag N-1 via Wiener-Khinchin), MUSIC/EV at class level (denominator exactly 0 at the entries of the true bins, > 0 at "
+              "every other bin), covariance / modified covariance (AR polynomial vanishes on the NFFT grid exactly at the true bins; rho = 0, the stored "
+              "spectrum is 0 resp. 0/0 there).  Non-negativity/realness collected per class under the guards of the formulas.  The tone-IN-NOISE "
+              "clauses (exact / within one bin / within the taper bandwidth / within the main lobe) for all 12 classes are decided by a "
+              "property-directed search on the implementation only.")
 TRUSTED = ["Coq 8.16.1 kernel + vm_compute", "model of Range (Model/Convert.v freq_bins), tied by exact correspondence of the reported bins",
-           "numpy.fft modelled by the DFT specification", "Python harness"]
-UNPROVED = ["tone 'in noise' through the non-linear estimators (Burg, Yule-Walker, ARMA, minimum variance, multitaper): no closed form, search only",
-            "covariance / modified covariance / MUSIC / EV exact location: search here (noiseless statements are C14 / C17)",
-            "per-class real / finite / length clauses: search only at this commit"]
-ASSUMPTIONS = ["exact arithmetic in the theorems", "tone dominance: amplitude 1 against white noise of standard deviation 1e-2 (1e-3 for the exact clauses)"]
-RULE = ("every class x real/complex x N (even/odd) x NFFT in {None, 'nextpow2', even >= N, odd >= N} x sampling x tone bin (both signs for complex data) "
-        "x orders in domain; non-trivial = tone bin not 0 and NFFT >= 8; distinct = distinct (class, config, NFFT, bin, data)")
+           "fail-closed AST translator tools/props/_pipelines.py and the interpreter coq/Model/PipelineLib.v it targets (shared with C08; its "
+           "correspondence against real objects runs in C08)",
+           "models of the functional estimators (Periodogram, Arma2psd, Minvar, Eigen, Mtm, Ls): tied to the code by the correspondence runs of "
+           "C01 / C08 / C16 / C17 / C19 / C14, not here",
+           "numpy.fft modelled by the DFT specification; numpy.linalg.svd / scipy lstsq quantified by svd_spec / lstsq_spec", "Python harness"]
+UNPROVED = ["tone 'in noise' for every class (exact for periodogram / correlogram / covariance / modified covariance / MUSIC / EV, within one bin for "
+            "Burg / Yule-Walker / ARMA / minimum variance, within the taper bandwidth for multitaper): perturbed non-linear estimators, no closed "
+            "form -- search only",
+            "real sinusoid within the main lobe for windows other than the rectangular one or N < NFFT, and through the non-Fourier classes: search only",
+            "correlogram peak for lag windows / lags other than rectangular, biased, lag N-1, NFFT >= 2N-1: search only",
+            "noiseless Burg / Yule-Walker / ARMA / minimum variance / multitaper location: no theorem (the estimators are biased even without noise)",
+            "'finite' in binary64 (overflow, inf at exact zeros of a denominator): the theorems carry the guard 'denominator <> 0' instead; search checks isfinite"]
+ASSUMPTIONS = ["exact arithmetic in the theorems", "tone dominance in the search: amplitude 1 against white noise of standard deviation 1e-2 (1e-3 for the exact clauses)",
+               "the functional-result lengths used by the generated pipeline_length theorem are the theorem functional_lengths about the models"]
+RULE = ("every class x real/complex x N (even/odd) x NFFT in {None, 'nextpow2', even >= N, odd >= N} x sampling (1, 0.5, 7.5, 1000, 1024, 44100) x tone bin "
+        "(both signs for complex data, including bins 0, +-1, NFFT/2 and NFFT/2 +- 1) x orders in domain; non-trivial = tone bin not 0 and NFFT >= 8; "
+        "distinct = distinct (class, config, NFFT, bin, data)")
+GEN_NAMES = ['c02_table_complete', 'store_rows', 'default_axis', 'pipeline_length', 'pipeline_axis', 'pipeline_axis_fourier', 'pipeline_axis_subspace',
+             'pipeline_axis_unscaled']
 
 PRE = """Require Import Spectrum.Model.Convert.
 From Coq Require Import ZArith List.
@@ -136,11 +157,51 @@ def check_tone(cls, cfg, N, NFFT, sampling, k, cplx, noise, seed):
     return bad
 
 
+def check_sinusoid_exact(N, k, sampling):
+    """theorem real_sinusoid_peak on the implementation: real on-grid sinusoid, rectangular window, N = NFFT (whole periods), 2k != 0 mod N:
+    the one-sided periodogram is A^2 N / 4 * 2 ... at the entry of |f| = min(k, N-k) and (numerically) 0 at every other entry"""
+    bad = []
+    n = np.arange(N)
+    x = 1.5 * np.cos(2 * np.pi * k * n / N + 0.7)
+    p = E.build('Periodogram', x, {'window': 'rectangular'}, NFFT=N, sampling=sampling, scale_by_freq=False)
+    psd = np.asarray(p.psd); f = np.asarray(p.frequencies())
+    kk = k % N; kk = min(kk, N - kk)
+    want = N // 2 + 1 if N % 2 == 0 else (N + 1) // 2
+    if len(psd) != want or len(f) != want:
+        return [('count', 'len(psd)=%d len(frequencies())=%d expected %d' % (len(psd), len(f), want))]
+    j = int(np.argmax(psd))
+    if j != kk or abs(f[j] - kk * sampling / N) > 1e-9 * sampling:
+        bad.append(('tone', 'real sinusoid at bin %d of N=NFFT=%d (rectangular): maximum at entry %d (f=%.6g), expected entry %d' % (k, N, j, f[j], kk)))
+    rest = np.delete(psd, kk)
+    if rest.size and np.max(np.abs(rest)) > 1e-9 * psd[kk]:
+        bad.append(('tone', 'real sinusoid at bin %d of N=NFFT=%d (rectangular): entries off the tone are not 0 (max %.3g of the peak)' % (k, N, np.max(np.abs(rest)) / psd[kk])))
+    return bad
+
+
+def check_range(n, sampling):
+    """Range(n, sampling) against the theorem default_axis: counts and k*sampling/n"""
+    from spectrum.psd import Range
+    bad = []
+    r = Range(n, sampling)
+    one = np.asarray(r.onesided(), dtype=float); two = np.asarray(r.twosided(), dtype=float); cen = np.asarray(r.centerdc(), dtype=float)
+    w1 = n // 2 + 1 if n % 2 == 0 else (n + 1) // 2
+    for name, v, want, off in (('onesided', one, w1, 0), ('twosided', two, n, 0), ('centerdc', cen, n, n // 2)):
+        if len(v) != want:
+            bad.append(('count', 'Range(%d, %r).%s() has %d entries, expected %d' % (n, sampling, name, len(v), want)))
+        elif np.max(np.abs(v - (np.arange(want) - off) * sampling / n)) > 1e-9 * sampling:
+            bad.append(('axis', 'Range(%d, %r).%s() is not (k - %d)*sampling/N' % (n, sampling, name, off)))
+    return bad
+
+
 def replay(rep):
     r = rep['replay']
     try:
         if r['what'] == 'tone':
             return not check_tone(r['estimator'], r['cfg'], r['N'], r['NFFT'], r['sampling'], r['k'], r['datatype'] == 'complex', r['noise'], r['seed'])
+        if r['what'] == 'sinusoid':
+            return not check_sinusoid_exact(r['N'], r['k'], r['sampling'])
+        if r['what'] == 'range':
+            return not check_range(r['n'], r['sampling'])
         x = vlib.unhexv(r['x'])
         if r['datatype'] == 'real':
             x = np.real(x)
@@ -158,6 +219,20 @@ def run(ctx):
     rng = ctx.rng
     ctx.check_theorems('Properties/C02.v')
 
+    # ---------------- translator + theorems over the generated pipeline table (lengths, placement on the axis)
+    src = os.path.join(vlib.SNAP, 'src', 'spectrum')
+    table_v = None
+    try:
+        tab = P.extract(src)
+        table_v = P.gallina(tab)
+    except P.Fail as e:
+        for n in GEN_NAMES:
+            ctx.obligations.append((n, False, []))
+        ctx.broken.append({'theorem': 'translator:pipelines (source outside the recognised shapes)', 'where': src, 'log': str(e)})
+    if table_v is not None:
+        thm = open(os.path.join(os.path.dirname(os.path.abspath(__file__)), '_c02_theorems.v.in')).read()
+        ctx.check_generated('C02_pipelines', table_v + thm, GEN_NAMES)
+
     # ---------------- the reported bins of Range against the model (exact integers, inside Coq)
     cases = []
     for n in range(1, ctx.q(48, 128) + 1):
@@ -170,8 +245,50 @@ def run(ctx):
     for i in ctx.coq_cases('c02_axis', PRE, cases, shard=64, descr='Range(n) bins vs Model.Convert.freq_bins, exact'):
         ctx.corr_disagreement('Range', i, {'n': i + 1})
 
+    # ---------------- Range with sampling != 1: counts and values for every n up to a bound x sampling rates (float truncation of the count)
+    for n in range(1, ctx.q(200, 600) + 1):
+        for fs in (1.0, 3.0, 10.0, 100.0, 1000.0, 0.5, 7.5, 1024.0, 44100.0):
+            ctx.case(('range-fs', n, fs), nontrivial=(n >= 3), sample={'function': 'Range(n, sampling)', 'n': n, 'sampling': fs} if (n, fs) == (30, 1000.0) else None)
+            for clause, what in check_range(n, fs):
+                # the axis of every class: show it on an estimator object too (len(psd) vs len(frequencies()))
+                x = np.cos(0.9 * np.arange(max(n, 8)))[:max(n, 4)]
+                rep = {'what': 'range', 'n': n, 'sampling': fs}
+                ctx.violation('%s/Range/sampling' % clause, 'Range(N=%d, sampling=%r): %s (frequencies() of every estimator with NFFT=%d)' % (n, fs, what, n), rep)
+
+    # ---------------- exhaustive small space, NOISELESS (the theorems periodogram_peak / real_sinusoid_peak on the implementation)
+    for N in (8, 9):
+        for NFFT in (None, N + 1, 16, 17):
+            nfft = resolve_nfft(NFFT, N)
+            for window in ('rectangular', 'hann', 'hamming'):
+                for k in range(-nfft, nfft + 1):
+                    cfg = {'window': window}
+                    ctx.count('noiseless/Periodogram/complex')
+                    ctx.case(('noiseless', N, str(NFFT), window, k), nontrivial=(k % nfft != 0),
+                             sample={'clause': 'tone (noiseless)', 'estimator': 'Periodogram', 'N': N, 'NFFT': NFFT, 'window': window, 'bin': k} if (N, NFFT, window, k) == (9, 17, 'hann', -3) else None)
+                    rep = {'what': 'tone', 'estimator': 'Periodogram', 'cfg': cfg, 'N': N, 'NFFT': NFFT, 'sampling': 7.5, 'k': k, 'datatype': 'complex', 'noise': 0.0, 'seed': 0}
+                    try:
+                        bad = check_tone('Periodogram', cfg, N, NFFT, 7.5, k, True, 0.0, 0)
+                    except Exception as e:
+                        bad = [('raises', 'raised %s: %s' % (type(e).__name__, str(e)[:100]))]
+                    for clause, what in bad:
+                        ctx.violation('%s/Periodogram/complex' % clause, 'Periodogram (noiseless complex exponential, NFFT=%s, %s): %s' % (NFFT, window, what), rep)
+    for N in (8, 9, 12, 15, 30):
+        for k in range(1, N):
+            if (2 * k) % N == 0:
+                continue
+            fs = [1.0, 1000.0, 7.5][k % 3]
+            ctx.count('noiseless/Periodogram/real-sinusoid')
+            ctx.case(('sinusoid', N, k, fs), nontrivial=True, sample={'clause': 'real sinusoid (noiseless, rectangular, N=NFFT)', 'N': N, 'bin': k, 'sampling': fs} if (N, k) == (9, 2) else None)
+            rep = {'what': 'sinusoid', 'N': N, 'k': k, 'sampling': fs}
+            try:
+                bad = check_sinusoid_exact(N, k, fs)
+            except Exception as e:
+                bad = [('raises', 'raised %s: %s' % (type(e).__name__, str(e)[:100]))]
+            for clause, what in bad:
+                ctx.violation('%s/Periodogram/real' % clause, 'Periodogram: %s' % what, rep)
+
     # ---------------- every class: basic clauses on generic data
-    for it in range(ctx.q(20, 100) * len(E.CLASSES)):
+    for it in range(ctx.q(20, 800) * len(E.CLASSES)):
         cls = E.CLASSES[it % len(E.CLASSES)]
         cplx = bool((it // len(E.CLASSES)) % 2); N = int(rng.integers(16, 50))
         x, kind = E.gen_data(rng, N, cplx)
@@ -179,7 +296,7 @@ def run(ctx):
         NFFT = [None, 'nextpow2', N + 2 + (N % 2), N + 3 + (N % 2), 2 * N, 2 * N + 1][int(rng.integers(0, 6))]
         if cls == 'pminvar' and isinstance(NFFT, int):
             NFFT = max(NFFT, 2 * cfg['order'])
-        sampling = float(rng.choice([1.0, 0.5, 7.5, 1024.0, 44100.0]))
+        sampling = float(rng.choice([1.0, 0.5, 7.5, 1000.0, 1024.0, 44100.0]))
         tag = 'complex' if cplx else 'real'
         ctx.count('basic/%s/%s/NFFT=%s' % (cls, tag, NFFT if not isinstance(NFFT, int) else ('even' if NFFT % 2 == 0 else 'odd')))
         ctx.case(('basic', cls, json.dumps(jcfg(cfg), sort_keys=True), str(NFFT), sampling, x.tobytes()), nontrivial=True,
@@ -193,7 +310,7 @@ def run(ctx):
             ctx.violation('%s/%s/%s' % (clause, cls, tag), '%s (%s data, NFFT=%s): %s' % (cls, tag, NFFT, what), rep)
 
     # ---------------- tone location on the reported axis
-    for it in range(ctx.q(40, 250) * len(E.CLASSES)):
+    for it in range(ctx.q(40, 3000) * len(E.CLASSES)):
         cls = E.CLASSES[it % len(E.CLASSES)]
         cplx = bool((it // len(E.CLASSES)) % 2); N = int(rng.integers(24, 50))
         NFFT = [None, 'nextpow2', N + 2 + (N % 2), N + 3 + (N % 2), 2 * N, 2 * N + 1][int(rng.integers(0, 6))]
@@ -204,9 +321,12 @@ def run(ctx):
                 NFFT = max(NFFT, 2 * cfg['order'] + 2); nfft = NFFT
         if cls == 'pcorrelogram' and nfft < 2 * cfg['lag'] + 1:
             cfg['lag'] = max(2, (nfft - 1) // 2)
-        sampling = float(rng.choice([1.0, 0.5, 7.5, 1024.0]))
+        sampling = float(rng.choice([1.0, 0.5, 7.5, 1000.0, 1024.0, 44100.0]))
         if cplx:
-            k = int(rng.integers(1, nfft)) * (1 if rng.integers(0, 2) else -1)          # positive and negative frequencies
+            if rng.integers(0, 4) == 0:                                                 # the ends of the axis: DC, +-1, Nyquist and its neighbours
+                k = int(rng.choice([0, 1, -1, nfft // 2, nfft // 2 + 1, -(nfft // 2), (nfft - 1) // 2, nfft - 1]))
+            else:
+                k = int(rng.integers(1, nfft)) * (1 if rng.integers(0, 2) else -1)      # positive and negative frequencies
         else:
             lo = max(2, int(np.ceil(0.12 * nfft))); hi = max(lo + 1, int(np.floor(0.38 * nfft)))    # away from 0 and sampling/2
             k = int(rng.integers(lo, hi + 1))
